@@ -1,11 +1,13 @@
 use crate::run::Suite;
 use std::path::Path;
 
+pub mod c18;
 pub mod c19;
 pub mod c21;
 
 pub fn for_property(p: &str) -> Vec<Suite> {
     match p {
+        "C18" => c18::suites(),
         "C19" => c19::suites(),
         "C21" => c21::suites(),
         _ => vec![],
@@ -14,6 +16,7 @@ pub fn for_property(p: &str) -> Vec<Suite> {
 
 /// Regenerate `Generated/*.lean` from the running implementation (only rewritten when changed).
 pub fn extract_all(dir: &Path) {
+    c18::extract(dir);
     c19::extract(dir);
 }
 
